@@ -134,3 +134,33 @@ Fixpoint c16_obs_ok (a : c16_acc) (ops : list rtte_op) (obs : list (option (Z * 
 
 Definition c16_ok (ops : list rtte_op) (obs : list (option (Z * Z))) : bool :=
   c16_obs_ok c16_acc0 ops obs.
+
+(* ---- the sample clause at full strength: "equals smoothed RTT plus four times its variance (at least
+   the clock granularity) after each sample ... returns to the sample-derived value on the next sample".
+   The variance is not observable through the public API, so the predicate carries it along the trace by
+   the RFC 6298 recurrence (first sample: srtt = r, rttvar = r/2; then rttvar = 3/4 rttvar + 1/4 |srtt - r|,
+   srtt = 7/8 srtt + 1/8 r, Duration arithmetic = floor on nanoseconds) and requires, after every sample,
+   rtt = srtt and rto = clamp (srtt + max (4 rttvar) G); a timeout leaves srtt/rttvar alone.  A panic ends
+   the judged part of the trace (c16_obs_ok decides whether the panic was legitimate). *)
+Fixpoint c16_exact_obs (var : option (Z * Z)) (ops : list rtte_op) (obs : list (option (Z * Z))) : bool :=
+  match ops, obs with
+  | [], _ => true
+  | _ :: _, [] => false
+  | _ :: _, None :: _ => true
+  | o :: ops', Some (rto, rtt) :: obs' =>
+      match o with
+      | OpTimeout =>
+          (match var with Some (srtt, _) => rtt =? srtt | None => true end) && c16_exact_obs var ops' obs'
+      | OpSample r =>
+          let '(srtt', var') :=
+            match var with
+            | None => (r, r / 2)
+            | Some (srtt, rttvar) => ((srtt * 7 + r) / 8, rttvar * 3 / 4 + Z.abs (srtt - r) / 4)
+            end in
+          (rtt =? srtt') && (rto =? clamp (srtt' + Z.max (4 * var') CLOCK_GRANULARITY)) &&
+          c16_exact_obs (Some (srtt', var')) ops' obs'
+      end
+  end.
+
+Definition c16_exact_ok (ops : list rtte_op) (obs : list (option (Z * Z))) : bool :=
+  c16_exact_obs None ops obs.
